@@ -853,13 +853,17 @@ func c14OwnAttrs(c *cx) {
 				c.r.Check("C14.6", f, "stanza field "+sel.Sel.Name+" taken from an attribute", "site located", w.stmt.Pos(), false, "statement not in the graph")
 				continue
 			}
+			// an attribute qualified with the element's namespace (c:type with
+			// xmlns:c="jabber:client") is NOT the unprefixed attribute: attributes
+			// do not inherit the default namespace. The session reads the
+			// unqualified id/type/from only (getIDTyp, attr.Own); a parser that
+			// also accepts the qualified form disagrees with it (a result IQ with
+			// c:type="get" is answered by the multiplexer's fallback).
 			pats := []string{
-				`or(eq(p0.Name.Space,rangeval(p0.Attr).Name.Space) | eq(rangeval(p0.Attr).Name.Space,""))`,
 				`eq(rangeval(p0.Attr).Name.Space,"")`,
-				`eq(p0.Name.Space,rangeval(p0.Attr).Name.Space)`,
 			}
 			okd, why := g.DominatedAny(pt, pats)
-			c.r.Check("C14.6", f, "stanza field "+sel.Sel.Name+" taken from an attribute", "G: the assignment is dominated by 'attribute namespace is empty or the stanza's own' (a foreign-namespace x:type/x:id/x:to/x:from is not the stanza's own)", w.stmt.Pos(), okd, why)
+			c.r.Check("C14.6", f, "stanza field "+sel.Sel.Name+" taken from an attribute", "G: the assignment is dominated by 'the attribute is unqualified' (x:type of any namespace, the element's own included, is not the stanza's type)", w.stmt.Pos(), okd, why)
 		}
 	}
 	c.r.Floor("C14.6", "attribute-derived stanza fields", n, 12)
